@@ -15,7 +15,7 @@ PCS = [(p, c) for p in ('ANY', 'SECOND', 'MILLISECOND') for c in ('EXACT', 'MIN'
 
 def contracts():
     cs = [K.format_datetime_contract(True), K.format_datetime_contract(False)]
-    cs += [K.parse_contract(k) for k in ('datetime', 'date', 'str')]
+    cs += [K.parse_contract(k) for k in ('datetime', 'stixdatetime', 'date', 'str')]
     cs += [K.to_enum_contract(k) for k in ('member', 'none', 'str', 'other')]
     cs.append(timestamp_property_contract())
     cs += [K.should_set_millisecond_contract(k) for k in ('str', 'datetime', 'stixdatetime')]
